@@ -205,6 +205,7 @@ func TestC16Schema(t *testing.T) {
 		opts.MaxAttrs = 1
 		opts.AllKindsChance = 0
 		opts.MaxRelEdges = 8
+		opts.OddCardinality = true
 		ss := gen.CoherentSchema(t, opts)
 
 		if errs := ss.Schema.Check(); len(errs) != 0 {
@@ -247,11 +248,14 @@ func TestC16Schema(t *testing.T) {
 			t.Fatalf("C16 violated: Rels() has %d entries, want %d on %s", len(rels1), len(groups), ss)
 		}
 
-		if !reflect.DeepEqual(rels1, rels1b) {
+		// When the two sides of a pair disagree about cardinality (Check only
+		// compares names) either side's normal form may be listed: such
+		// entries are compared by their names only.
+		if a, b := relsKey(rels1, groups), relsKey(rels1b, groups); a != b {
 			t.Fatalf("C16 violated: two calls of Rels() differ: %s vs %s on %s", relsString(rels1), relsString(rels1b), ss)
 		}
 
-		if !reflect.DeepEqual(rels1, rels2) {
+		if a, b := relsKey(rels1, groups), relsKey(rels2, groups); a != b {
 			t.Fatalf("C16 violated: Rels() depends on insertion order: %s vs %s on %s", relsString(rels1), relsString(rels2), ss)
 		}
 
@@ -273,6 +277,30 @@ func TestC16Schema(t *testing.T) {
 		r.Case(ss.String(), pairs >= 2 || (pairs >= 1 && collision),
 			fmt.Sprintf("pairs=%d", min(pairs, 4)), fmt.Sprintf("types=%d", len(ss.Types)))
 	}))
+}
+
+// relsKey renders a Rels() result for comparison: full values, except for the
+// entries of pairs whose two sides disagree about cardinality (names only).
+func relsKey(rels []jsonapi.Rel, groups map[string][]jsonapi.Rel) string {
+	var b strings.Builder
+
+	for _, r := range rels {
+		consistent := true
+
+		if g := groups[groupOf(groups, r)]; len(g) == 2 && g[0].Invert() != g[1] {
+			consistent = false
+		}
+
+		if consistent {
+			b.WriteString(relDesc(r))
+		} else {
+			fmt.Fprintf(&b, "pair{%q %q <-> %q %q}", r.FromType, r.FromName, r.ToType, r.ToName)
+		}
+
+		b.WriteString("; ")
+	}
+
+	return b.String()
 }
 
 func relsString(rels []jsonapi.Rel) string {
